@@ -65,13 +65,112 @@ pub fn bias_roundtrip(m: BiasMsg, sig_index: usize, sat: u8, pat: u16) -> Result
     }
 }
 
+/// domain constants (value, width) written at every admissible bit offset: week / day lengths in ms and s and their
+/// neighbours, week-number and counter limits, the speed of light
+const DICTIONARY: &[(u64, usize)] = &[
+    (604_800_000, 30), (604_799_999, 30), (604_800_001, 30), (86_400_000, 30), (86_400_000, 27), (86_399_999, 27), (86_400_001, 27), (604_800, 20), (604_799, 20), (604_801, 20),
+    (86_400, 17), (86_399, 17), (86_401, 17), (43_200, 16), (3_600_000, 22), (3_599_999, 22), (1_023, 10), (1_024, 11), (4_095, 12), (8_191, 13), (900, 10), (1_000_000, 20),
+    (299_792_458, 29), (299_792, 19), (36_000, 16), (100_000, 17),
+];
+
+/// decode -> encode of one frame: Some(true) reproduced bit for bit, Some(false) not, None = not a typed message / refused
+fn survives(f: &[u8], number: u16) -> Option<bool> {
+    let m = catch(|| crate::msggen::decode_frame(f)).ok().flatten()?;
+    if !crate::msggen::is_typed(&m) || m.number() != Some(number) {
+        return None;
+    }
+    let f1 = catch(|| crate::msggen::build(&m)).ok()?.ok()?;
+    Some(f1 == f)
+}
+
+/// Message-level form of the field identity for fields that are *not* plain `df!` definitions of dfs.rs any more (a
+/// wrapper module, a special case inside a codec): in the all-zero golden frame of every type built from plain numeric
+/// fields, a bit is *faithful* if flipping it alone survives decode -> encode; every dictionary constant written over a
+/// window of faithful bits must survive too. (Windows touching a count, a sign bit of a sign-magnitude field - whose
+/// single flip gives the redundant negative zero -, a reserved or padding bit are not faithful and are skipped.)
+fn dictionary_pass(ctx: &Ctx) -> (Evidence, Vec<Violation>) {
+    use crate::bits::{get_bits, set_bits};
+    let golden = crate::pool::golden_frames();
+    let skip = |n: u16| crate::msm::Cons::of_number(n).is_some() || matches!(n, 1029 | 1059 | 1065 | 1230 | 1007 | 1008 | 1033 | 1021 | 1022 | 1300 | 1301 | 1302);
+    let bases: Vec<(u16, Vec<u8>)> = golden
+        .iter()
+        .filter(|(name, _)| name.contains("_0.rtcm"))
+        .filter_map(|(_, f)| {
+            let n = get_bits(&f[3..], 0, 12)? as u16;
+            if skip(n) || !crate::registry::is_supported(n) {
+                None
+            } else {
+                Some((n, f.clone()))
+            }
+        })
+        .collect();
+    let _ = ctx;
+    let parts: Vec<(Evidence, Vec<Violation>)> = bases
+        .par_iter()
+        .map(|(number, f)| {
+            let mut ev = Evidence::new();
+            ev.sample_cap = 0;
+            let mut vs: Vec<Violation> = Vec::new();
+            if survives(f, *number) != Some(true) {
+                ev.class("dictionary/base-not-a-fixed-point(skipped)");
+                return (ev, vs);
+            }
+            let p = f[3..f.len() - 3].to_vec();
+            let nbits = p.len() * 8;
+            let mut faithful = vec![false; nbits];
+            for b in 12..nbits {
+                let mut q = p.clone();
+                q[b / 8] ^= 0x80 >> (b % 8);
+                faithful[b] = survives(&frame(&q), *number) == Some(true);
+            }
+            for (k, w) in DICTIONARY {
+                if *w + 12 > nbits {
+                    continue;
+                }
+                for o in 12..=nbits - *w {
+                    if !faithful[o..o + *w].iter().all(|x| *x) {
+                        continue;
+                    }
+                    let mut q = p.clone();
+                    set_bits(&mut q, o, *w, *k);
+                    let g = frame(&q);
+                    ev.evaluations += 1;
+                    match survives(&g, *number) {
+                        Some(true) => ev.distinct_by_construction += 1,
+                        _ => {
+                            if vs.is_empty() {
+                                vs.push(Violation {
+                                    property: "C08".into(),
+                                    signature: format!("c08:{}:dictionary-pattern-changed", number),
+                                    message: format!("{}: the {}-bit pattern {:#x} ({}) written at payload bit {} of the all-zero frame - every bit of that window survives decode -> encode on its own - does not survive", number, w, k, k, o),
+                                    case: json!({"kind":"dictionary-frame","number":number,"bytes":hex(&g),"offset":o,"width":w,"value":k}),
+                                });
+                            }
+                        }
+                    }
+                }
+            }
+            ev.class("dictionary/base-frame");
+            (ev, vs)
+        })
+        .collect();
+    let mut ev = Evidence::new();
+    let mut vs = Vec::new();
+    for (e, v) in parts {
+        ev.merge(e);
+        vs.extend(v);
+    }
+    ev.class_n("dictionary constants at faithful windows (message level)", ev.evaluations);
+    (ev, vs)
+}
+
 pub fn run(ctx: &Ctx, replay: Option<&J>) -> CheckResult {
     let maxw: u32 = ctx.tier.pick(30, 32);
     let rule = format!(
         "every df! field found in /repo/src/df/dfs.rs ({} fields) x bit patterns: ALL 2^w patterns for w<={} (enumerated, distinct by construction); \
          for wider fields boundary windows of 2^{} patterns around 0, the sign boundary and the top, one-hot/one-cold patterns, all patterns of the form (a<<s)+d (every shift s, up to 2^10 high parts a, |d|<=16: limb/mantissa \
          boundaries, prefix masks) and 2^{} seeded random patterns (these samples are not counted as distinct); the three hand-written bias codecs (1059/1065: 2^14, 1230: 2^16 patterns) enumerated completely \
-         through one-entry frames and the public API; MSM frames of all 49 types with random raw patterns in every satellite / cell field (message level: decode -> encode must reproduce the frame). oracle: pattern -> own bit writer -> decode -> encode (over a buffer pre-filled with 0xFF for even and 0x00 for odd patterns; the extreme patterns over both) -> own bit reader returns the pattern (only the \
+         through one-entry frames and the public API; MSM frames of all 49 types with random raw patterns in every satellite / cell field (message level: decode -> encode must reproduce the frame); a dictionary of 26 domain constants (week / day lengths, counter limits ...) written at every window of individually faithful bits of the all-zero golden frame of every plain-field message type. oracle: pattern -> own bit writer -> decode -> encode (over a buffer pre-filled with 0xFF for even and 0x00 for odd patterns; the extreme patterns over both) -> own bit reader returns the pattern (only the \
          14 pinned sign-magnitude fields may map 10..0 to 0), written width == declared width, value finite, optional fields have exactly one absent pattern \
          which is what 'absent' encodes to. every pattern is non-trivial",
         FIELDS.len(),
@@ -105,6 +204,12 @@ pub fn run(ctx: &Ctx, replay: Option<&J>) -> CheckResult {
             let r = bias_roundtrip(m, c["signal_index"].as_u64().unwrap_or(0) as usize, c["satellite"].as_u64().unwrap_or(0) as u8, c["pattern"].as_u64().unwrap_or(0) as u16);
             if let Err((sig, msg)) = r {
                 vs.push(Violation { property: "C08".into(), signature: sig, message: msg, case: c.clone() });
+            }
+        } else if c["kind"] == "dictionary-frame" {
+            let g = crate::bits::unhex(c["bytes"].as_str().unwrap_or("")).unwrap_or_default();
+            let n = c["number"].as_u64().unwrap_or(0) as u16;
+            if survives(&g, n) != Some(true) {
+                vs.push(Violation { property: "C08".into(), signature: format!("c08:{}:dictionary-pattern-changed", n), message: "dictionary pattern inside a message does not survive decode -> encode".into(), case: c.clone() });
             }
         } else if c["kind"] == "msm-frame" {
             let f0 = crate::bits::unhex(c["bytes"].as_str().unwrap_or("")).unwrap_or_default();
@@ -425,6 +530,18 @@ pub fn run(ctx: &Ctx, replay: Option<&J>) -> CheckResult {
                 } else if !vs.iter().any(|y| y.signature == x.signature) {
                     vs.push(x);
                 }
+            }
+        }
+    }
+    // ---- message level: dictionary of domain constants at every bit offset of the all-zero golden frames ----
+    {
+        let (dev, dvs) = dictionary_pass(ctx);
+        ev.merge(dev);
+        for x in dvs {
+            if ctx.is_known(&x.signature) {
+                ev.excluded_known += 1;
+            } else if !vs.iter().any(|y| y.signature == x.signature) {
+                vs.push(x);
             }
         }
     }
